@@ -1017,6 +1017,15 @@ class Driver:
                     s.add(Con((Lin.sym(sym) - x) if kind == "max" else (x - Lin.sym(sym)), ">="))
                 s.events.append((kind + "2", sym, list(args), ln))
                 return [(s, Lin.sym(sym))]
+            if len(args) >= 2:
+                # an extremum with an operand the analysis does not resolve (an entry of the stop criteria ...): a new
+                # quantity, bounded by the operands it does know
+                sym = s.fresh(kind + "N")
+                for x in args:
+                    if isinstance(x, Lin):
+                        s.add(Con((Lin.sym(sym) - x) if kind == "max" else (x - Lin.sym(sym)), ">="))
+                s.events.append((kind + "2", sym, list(args), ln))
+                return [(s, Lin.sym(sym))]
             if isinstance(a, ArrSym):
                 sym = "%s(%s)" % (kind, a.name)
                 s.add(Con(Lin.sym(sym), ">"))
